@@ -1023,6 +1023,10 @@ func (c *ctx) exhaustive(tees []int) {
 						}
 						sc := scenario{others: []other{f1}, clear: segs(one, h, f, a), prot: p,
 							results: []negRes{{mask: 2}, {mask: 0}}, domain: n % 4, remote: (n / 4) % 4, explicit: n%3 == 0, ck: allClearKinds[(n/2)%len(allClearKinds)]}
+						if n%6 == 5 {
+							// a server-to-server initiator (own address = the bare domain, jabber:server)
+							sc.state0 = uint8(xmpp.S2S)
+						}
 						sc.clear = relDomains(sc.clear, sc.domain)
 						if n%2 == 1 {
 							sc = useFeature2(sc, f2)
